@@ -201,7 +201,7 @@ func AddNilCheck(pass *analysishelper.EnhancedPass, expr ast.Expr) (trueCheck, f
 	produceNegativeNilChecks := func(exprs ...ast.Expr) RootFunc {
 		return func(node *RootAssertionNode) {
 			for _, e := range exprs {
-				node.AddProduction(&annotation.ProduceTrigger{
+				node.AddCheckedProduction(&annotation.ProduceTrigger{
 					Annotation: &annotation.NegativeNilCheck{ProduceTriggerNever: &annotation.ProduceTriggerNever{}},
 					Expr:       e,
 				})
